@@ -48,7 +48,7 @@ def main():
         out["suite_passed"] = int(m.group(1)) if m else None
         out["suite_rc"] = rc
         out["confirmed"] = out["demo_clean_rc"] == 0 and out["demo_mutant_rc"] != 0 and rc == 0 and out["suite_passed"] == 135
-        env = dict(os.environ, FV_REPO=wt, VERIF_SEED=os.environ.get("VERIF_SEED", "1"))
+        env = dict(os.environ, FV_REPO=wt, VERIF_SEED=os.environ.get("VERIF_SEED", "1"), FV_EVIDENCE_DIR="/dev/shm/fv_seed_evidence")
         out["checks"] = {}
         for p in props:
             t0 = time.time()
